@@ -57,7 +57,9 @@ def build_harness():
 
 # ------------------------------------------------------------------ program generator
 
-SRC_MAXLEN = {"vec": 3, "iter": 3, "iterx": 3, "slice": 2, "range": 2, "inf": 2, "deque": 1, "list": 1, "btree": 1}
+SRC_MAXLEN = {"vec": 3, "iter": 3, "iterx": 3, "slice": 2, "range": 2, "inf": 2, "deque": 1, "list": 1, "btree": 1,
+              "vecadv": 2, "dequeref": 1, "btreeref": 1}
+HIDDEN_CONV = ("slice", "range", "dequeref", "btreeref")
 CORE_TERMS = ["none", "collect_vec", "collect", "collect_into", "collect_x", "count", "for_each", "reduce", "find", "first", "any", "all"]
 FULL_ONLY = ["fold", "sum", "min", "max", "min_by", "max_by", "min_by_key", "max_by_key"]
 EARLY = ["find", "first", "any", "all"]
@@ -67,7 +69,7 @@ IDX = ["find_idx", "first_idx"]
 def full_ok(src, shape):
     if src in ("vec", "iter", "iterx"):
         return len(shape) <= 1
-    if src in ("slice", "range"):
+    if src in ("slice", "range", "vecadv"):
         return len(shape) == 0
     return False
 
@@ -130,25 +132,26 @@ def final_type(shape, start="Empty"):
     return ty
 
 
-def shapes_by_family(maxlen, start="Empty"):
+def shapes_by_family(maxlen, start="Empty", by_type=False):
     import itertools
     fam = {}
     for n in range(maxlen + 1):
         for t in itertools.product("mflo", repeat=n):
             sh = "".join(t)
-            fam.setdefault(FAMILY[final_type(sh, start)], []).append(sh)
+            ty = final_type(sh, start)
+            fam.setdefault(ty if by_type else FAMILY[ty], []).append(sh)
     return fam
 
 
 def gen_input(rng, src, n):
     xs = [rng.randrange(V) for _ in range(n)]
-    if src == "btree":
+    if src in ("btree", "btreeref"):
         xs.sort()
     return xs
 
 
 def gen_prog(rng, src=None, shape=None, n=None, term=None, nt="rand", cs="rand", param_slots="first",
-             sources=("vec", "iter", "iterx", "slice", "range", "deque", "list", "btree"),
+             sources=("vec", "iter", "iterx", "slice", "range", "deque", "list", "btree", "vecadv", "dequeref", "btreeref"),
              sizes=(0, 1, 2, 3, 5, 8, 13, 24, 40), maxlen=3):
     src = src or rng.choice(sources)
     if n is None:
@@ -157,7 +160,7 @@ def gen_prog(rng, src=None, shape=None, n=None, term=None, nt="rand", cs="rand",
     if shape is None:
         if rng.random() < 0.6:
             # pick the kernel family first, then a shape that ends in it
-            fam = shapes_by_family(ml, "Map" if src in ("slice", "range") else "Empty")
+            fam = shapes_by_family(ml, "Map" if src in HIDDEN_CONV else "Empty")
             shape = rng.choice(fam[rng.choice(sorted(fam))])
         else:
             ln = rng.choice([x for x in [0, 1, 1, 2, 2, 2, 3, 3, 3] if x <= ml])
@@ -185,13 +188,15 @@ def gen_prog(rng, src=None, shape=None, n=None, term=None, nt="rand", cs="rand",
         else:
             slots[rng.randrange(nslots)].append(o)
     ops = []
-    if src in ("slice", "range"):
+    if src in HIDDEN_CONV:
         ops.append({"k": "map", "t": list(range(V)), "h": 1})
     for i in range(nslots):
         ops.extend(slots[i])
         if i < len(stages):
             ops.append(stages[i])
     p = {"src": src, "input": gen_input(rng, src, n), "ops": ops, "term": term or {"k": "collect_vec"}, "cs": -1, "ck": 0}
+    if src == "vecadv":
+        p["adv"] = rng.randint(0, min(3, n))
     norm(p)
     return p
 
@@ -212,6 +217,7 @@ def norm(p):
     p.setdefault("cs", -1)
     p.setdefault("ck", 0)
     p.setdefault("n", 0)
+    p.setdefault("adv", 0)
     return p
 
 
